@@ -32,7 +32,7 @@ BOUNDS = {
     "C08": _WORLD + "; every third case: " + _META,
     "C09": _WORLD,
     "C15": "seeded call sequences (<= 8 of dispatch / running / wait / wait_without_tl / world / world_mut) on a real AsyncDispatcher over plans of <= 5 registrations; "
-           "systems stay inside run until a gate opens (<= 40 ms); a thread-local system may be armed to panic inside one wait(), which the caller catches before going on",
+           "systems stay inside run until a gate opens (<= 40 ms); a thread-local system may be armed to panic inside one wait(), which the caller catches before going on; setup() calls; a quarter of the sequences that poll running() hold the systems 250 ms",
     "C16": "seeded random Par/Seq trees (depth <= 5, fan-out <= 4, 6 resource ids, zero-sized leaves) built through the real Par::new/with and Seq::new/with, "
            "dispatched three times by a real ParSeq (once from inside the pool)",
     "C17": _META,
@@ -40,7 +40,7 @@ BOUNDS = {
            "tuples, a derived and a derived generic bundle), so what the scheduler is told is shred's own reads() / writes()",
     "C04": _SEQ + "; every 8th case: a call sequence (<= 8 calls) on a real AsyncDispatcher, run counts only (k dispatches -> k runs, one thread-local run per wait)",
     "C19": _SEQ + "; each case is rebuilt after renaming, naming / un-naming, injective resource relabelling, permuting declared lists, and on workers of "
-           "1- and 3-thread rayon pools; plans compared",
+           "1- and 3-thread rayon pools, and with every dependency list reversed / rotated; plans (and the printed text of two builds) compared",
 }
 BOUND_TEXT = _SEQ
 
